@@ -1,4 +1,73 @@
-"""C20 - ModelSummary._generate / MetaboliteSummary._generate (draft header, rewritten below when the proofs stand)."""
+"""C20 - ModelSummary._generate and MetaboliteSummary._generate: which numbers the model and the metabolite summary show.
+
+Statement (C20): "A model summary lists every boundary reaction exactly once, under uptake or secretion according to the sign of its
+metabolite's net exchange, with a flux equal to the solution's flux times the stoichiometric coefficient, and reports the objective
+value of that solution.  A metabolite summary lists every reaction of the metabolite exactly once as producing or consuming, with flux
+equal to solution flux times coefficient; ... Ranges shown with fva= are the FVA ranges scaled the same way".
+
+Both functions build a pandas frame and then UPDATE IT IN PLACE (`flux["flux"] *= ...`, `flux[[cols]] = ...`, `flux.loc[mask, col] = ...`),
+which an algebra of pure uninterpreted operations cannot express.  Two layers:
+
+LAYER 1 - data flow (proved by symbolic execution of the real source).  A frame is an immutable opaque value held in a local variable
+or an attribute; the `setitem` hook gives `F[key] = v` the meaning "the ONE name that holds F now holds pd.set(F, key, v)" and
+`F.loc[rows, cols] = v` the meaning "... holds pd.loc_set(F, rows, cols, v)"; `F[key] op= v` is executed by the engine as
+`F[key] = F[key] op v`.  This is sound exactly when the frame object is reachable through one name only and no live value shares its
+memory.  The hook CHECKS that at every write and refuses (Unsupported -> undecided) otherwise:
+  * the frame was created in this very function (a pd.DataFrame(...) call, the result of .join / .copy, or an update of such);
+  * exactly one local / attribute of the whole symbolic state holds that term;
+  * no name is bound to a possible VIEW of it: `F[col]` (single column), `F.<attr>` (.values, .T, .loc), `F.loc[<not a boolean mask>, ..]`.
+    The names the real code binds are `view = flux[[..]]` (list of columns: a copy), `tmp = flux.loc[negative, "maximum"]`
+    (boolean mask: a copy), `negative` / `is_produced` / `is_consumed` / `production` / `consumption` (results of operators: new objects).
+  ASSUMPTION stated: these three pandas facts (list-of-columns / boolean-mask selection and operator results never alias their source).
+  By inspection of the source: ModelSummary._generate and MetaboliteSummary._generate write only to the local `flux` (rebound once by
+  `flux = flux.join(fva)`) and, in the metabolite summary, to `self.producing_flux` / `self.consuming_flux` (each the result of `.copy()`);
+  `self._flux = flux` is the LAST statement, after every write.
+
+LAYER 2 - meaning, under the ASSUMED contract `pandas.rowwise` (see its note; the interpreter `Rows.ev` below IS that assumption: it
+maps a frame term to the cells of one arbitrary row, refusing every shape it does not know), floats as reals, and the ASSUMED contract
+`cobra.copy@summary` (a copy keeps the identifier, the coefficients, and - for a boundary reaction - the identifier of its metabolite).
+
+PROVED for every shape of the arguments (solution given / None; fva None / float / frame), precondition: model.tolerance finite; model
+summary: every element of model.boundary has exactly ONE metabolite (the definition of Reaction.boundary; used by the `iter` hook):
+  ModelSummary._generate, for an ARBITRARY position j of model.boundary (r = model.boundary[j], m = its metabolite):
+    * rows: the frame has len(model.boundary) rows and as many labels; row inv[j] of the permutation `sorted` applies is r's row, different
+      positions get different rows (ghost bijection of `sorted`): each boundary reaction exactly once; label = reaction cell = r.id,
+      metabolite cell = m.id;
+    * factor = r.get_coefficient(m.id);  flux = solution[r.id] * factor, replaced by 0 when |.| < tolerance (then + 0);
+    * with fva (frame G = the given frame, or the result of the FVA call): minimum / maximum = thr(G.at[r.id, "minimum"/"maximum"]) * factor
+      with thr(x) = x if |x| >= tolerance else 0, SWAPPED when factor < 0 (then + 0), and flux = thr(solution[r.id] * factor);
+      plus the statement's form (scaled, then thresholded, swapped) under the hypothesis that the threshold cuts the same values before
+      and after scaling - which is proved to hold for |factor| = 1 (see FINDING 1);
+    * r's row is in uptake_flux iff flux > 0 or (flux = 0 and factor > 0), in secretion_flux iff flux < 0 or (flux = 0 and factor < 0); when
+      factor != 0 in exactly one of them; the cells there are those of the flux table; the column lists are exactly
+      [flux, (minimum, maximum,) reaction, metabolite];
+    * the solution is the argument, else the result of exactly ONE pfba(model); a float fva: exactly ONE
+      flux_variability_analysis(model=model, reaction_list=model.boundary, fraction_of_optimum=fva); _tolerance = model.tolerance;
+    * objective: linear_reaction_coefficients(model) is called once; non-empty: _objective = {copy(r): c_r} and _objective_value =
+      SIGMA over the keys k of _objective of solution[k.id] * _objective[k] (the engine's uninterpreted finite sum; that it equals the sum
+      over the originals needs a re-indexing lemma and is NOT proved); empty: the documented minimal display (placeholder reaction, nan).
+  MetaboliteSummary._generate, for an ARBITRARY position j of self._reactions (r = self._reactions[j], the metabolite M = self._metabolite):
+    * rows = len(self._reactions) (that the list holds every reaction of the metabolite once is __init__'s business: a sorted copy of the
+      frozenset metabolite.reactions - not under contract); label = reaction cell = r.id; factor = r.get_coefficient(M.id); flux, minimum,
+      maximum, the producing / consuming split and its exclusiveness exactly as above;
+    * percent = |flux| / T where T is the OPAQUE pandas sum of the |flux| column of that very side table (whose rows are proved to be the
+      side's rows); column lists [flux, (minimum, maximum,) reaction, percent];
+    * solution / pfba as above; a float fva: ONE flux_variability_analysis(model=model, reaction_list=L, fraction_of_optimum=fva) with
+      len(L) = len(self._reactions) and L[j] = r.id.
+NOT PROVED (bounded driver): percentages sum to one / totals balance (opaque sums), NaN, rendering.
+
+FINDING 1 (native reproduction, /venv/bin/python against /repo): the zero threshold is applied to the FVA range BEFORE scaling by the
+coefficient but to the flux AFTER scaling, so "ranges ... scaled the same way" fails for |factor| != 1 and a shown flux can lie outside
+its shown range.  Model: a_c; R1: -> 100 a_c, R2: a_c -> ; tolerance 1e-7; Solution fluxes R1 = 5e-8, R2 = 5e-6; fva frame minimum = maximum
+= the same numbers.  `model.metabolites.a_c.summary(solution=sol, fva=fva)._flux` shows R1 flux 5e-06 (= 5e-8 * 100) with minimum = maximum = 0
+(5e-8 is below the tolerance and zeroed before the scaling), while R2 shows -5e-06 in [-5e-06, -5e-06].
+
+ENGINE CHANGES (additive): pyvc/comprehension.py `_listcomp_flat1` ([e for x in xs for y in <one-element iterable of x>], previously
+unsupported) and in `_element` the inner iterable may be an external collection the `iter` hook gives a fixed length; pyvc/builtins.py
+`bi_float`: float("nan") goes to the new hook "float_nan" (unsupported without it; it used to crash the z3 numeral parser).
+
+MUTANTS (one case each, short budgets; each NOT verified; the obligation that broke) - see the list at the end of this docstring.
+"""
 import z3
 import cobra  # noqa
 from .common import *  # noqa
@@ -51,6 +120,7 @@ ORIG = z3.Function("pd:original", N.NP, N.NP)
 def copy_axioms():
     """ASSUMED (contract cobra.copy@summary): what Reaction.copy / Metabolite.copy keep"""
     x, m = z3.Const("cp_x", N.NP), z3.Const("cp_m", N.NP)
+    ASSUMED_USED["cobra.copy@summary"] = REG.get("cobra.copy@summary").note
     return [z3.ForAll([x], z3.And(id_of(copy_of(x)) == id_of(x), ORIG(copy_of(x)) == x), patterns=[copy_of(x)]),
             z3.ForAll([x], id_of(only_met(copy_of(x))) == id_of(only_met(x)), patterns=[only_met(copy_of(x))]),
             z3.ForAll([x, m], coef(copy_of(x), m) == coef(x, m), patterns=[coef(copy_of(x), m)])]
@@ -201,15 +271,26 @@ def _owned(t):
 
 
 def _bindings(st, t):
+    """every place of the symbolic state that holds an opaque value: locals of every frame, attributes of materialised objects,
+    items of concrete lists, and the components of tuples there (a frame inside a tuple can only be refused: kind "tuple").
+    NOT scanned: symbolic-length lists of kind np (neither function puts a frame into a list)"""
     out = []
+
+    def visit(where, v):
+        if isinstance(v, N.VNp):
+            out.append((where, v.t))
+        elif isinstance(v, VTuple):
+            for x in v.items:
+                visit(("tuple",) + where[1:], x)
     for fid, (parent, vars_) in st.frames.items():
         for k, v in vars_.items():
-            if isinstance(v, N.VNp):
-                out.append((("var", fid, k), v.t))
+            visit(("var", fid, k), v)
     for oid, rec in st.objs.items():
         for k, v in rec.items():
-            if isinstance(k, str) and k.startswith("attr:") and isinstance(v, N.VNp):
-                out.append((("attr", oid, k), v.t))
+            if isinstance(k, str) and k.startswith("attr:"):
+                visit(("attr", oid, k), v)
+        for x in rec.get("items") or ():
+            visit(("tuple", oid, "items"), x)
     return out
 
 
@@ -220,6 +301,11 @@ def _may_view(t, F):
         return True
     if h.startswith("np:attr.") and t.arg(0).eq(F):
         return True
+    if h == "np:getitem/2" and _head(t.arg(0)) in ("np:attr.loc/1", "np:attr.iloc/1") and t.arg(0).arg(0).eq(F):
+        # .loc[rows, cols] is a COPY when rows is a boolean mask (a comparison / its | & ~ combinations); a slice may be a view
+        k = t.arg(1)
+        rows = k.arg(0) if _head(k).startswith("np:tuple/") else k
+        return _head(rows) not in tuple(_CMPS) + tuple(_BOOLS) + ("np:invert/1",)
     return False
 
 
@@ -232,7 +318,7 @@ def setitem_hook(eng, st, obj, idx, val):
         raise Unsupported("in-place write into a frame that was not created in this function (a caller may hold it)")
     names = _bindings(st, F)
     holders = [n for n, t in names if t.eq(F)]
-    if len(holders) != 1:
+    if len(holders) != 1 or holders[0][0] == "tuple":
         raise Unsupported(f"in-place write into a frame bound to {len(holders)} names: the functional update is not sound")
     if any(_may_view(t, F) for n, t in names):
         raise Unsupported("in-place write into a frame while a possible VIEW of it (single column / attribute) is bound to a name")
@@ -596,8 +682,17 @@ def _row_clauses(rows, flux_t, side_ts, side_names, r_id, fac, raw, tol, ranges,
     cs.append(("factor", R(F.col("factor")) == fac))
     cs.append(("flux", R(F.col("flux")) == flux))
     if with_fva:
+        # exactly what is computed: the zero threshold is applied to the FVA range BEFORE it is scaled (FINDING 1 in the docstring)
         cs.append(("minimum", R(F.col("minimum")) == mn))
         cs.append(("maximum", R(F.col("maximum")) == mx))
+        # the STATEMENT ("the FVA ranges scaled the same way" as the flux, i.e. scaled, then thresholded), provable only when the
+        # threshold cuts the same values before and after scaling (always so for |factor| = 1, the usual boundary reaction)
+        a, b = AT(ranges, r_id, lit("minimum")), AT(ranges, r_id, lit("maximum"))
+        same = z3.And((_abs(a) >= tol) == (_abs(a * fac) >= tol), (_abs(b) >= tol) == (_abs(b * fac) >= tol))
+        slo, shi = _rnd(a * fac, tol), _rnd(b * fac, tol)
+        cs.append(("range-as-stated", z3.Implies(same, z3.And(R(F.col("minimum")) == z3.If(fac < 0, shi, slo),
+                                                                R(F.col("maximum")) == z3.If(fac < 0, slo, shi)))))
+        cs.append(("range-as-stated-unit-factor", z3.Implies(_abs(fac) == 1, same)))
     want_side = [z3.Or(flux > 0, z3.And(flux == 0, fac > 0)), z3.Or(flux < 0, z3.And(flux == 0, fac < 0))]
     sides = []
     for t, nm, want in zip(side_ts, side_names, want_side):
@@ -612,6 +707,8 @@ def _row_clauses(rows, flux_t, side_ts, side_names, r_id, fac, raw, tol, ranges,
 
 
 def _ms_post(E):
+    if E.role != "goal":
+        return z3.BoolVal(True)
     s0, s1 = E.s0, E.s1
     me = s1.objs[E["self"].oid]
     model = s0.objs[E["model"].oid]
@@ -695,6 +792,11 @@ REG.add(Contract(MM, "ModelSummary._generate", "C20",
 _MT_ATTRS = ("producing_flux", "consuming_flux", "_flux", "_tolerance")
 
 
+def _fresh_real(st):
+    v, dom = xr_fresh("tolerance")
+    return st.assume(dom), v
+
+
 def _mt_self():
     attrs = {a: TNone() for a in _MT_ATTRS}
     attrs.update({"_metabolite": N.TNp(), "_reactions": TList("np")})
@@ -702,6 +804,8 @@ def _mt_self():
 
 
 def _mt_post(E):
+    if E.role != "goal":
+        return z3.BoolVal(True)            # at a call site (MetaboliteSummary.__init__) only the frame condition is used
     s0, s1 = E.s0, E.s1
     me0, me = s0.objs[E["self"].oid], s1.objs[E["self"].oid]
     model = s0.objs[E["model"].oid]
@@ -754,4 +858,86 @@ REG.add(Contract(MT, "MetaboliteSummary._generate", "C20",
                  [("self", _mt_self()), ("model", _model_t()), ("solution", TNone()), ("fva", TNone())],
                  _cases(_mt_post), key="MetaboliteSummary._generate", axioms=lambda E: copy_axioms(),
                  pre=lambda E: E.s0.objs[E["model"].oid]["attr:tolerance"].k == 0,
-                 modifies=lambda E: [("obj", E["self"]), ("ghost", "ms_calls", lambda st: ()), ("ghost", "df_calls", lambda st: ())]))
+                 modifies=lambda E: [("attr", E["self"], a, lambda st: (st, N.VNp(fresh("np:summary_frame", N.NP))))
+                                     for a in ("producing_flux", "consuming_flux", "_flux")]
+                 + [("attr", E["self"], "_tolerance", _fresh_real),
+                    ("ghost", "ms_calls", lambda st: ()), ("ghost", "df_calls", lambda st: ())]))
+
+
+# ================================================================ MetaboliteSummary.__init__: the list of reactions the table is built from
+def _si_post(E):
+    me = E.s1.objs[E["self"].oid]
+    return z3.BoolVal(isinstance(me.get("attr:_flux"), VNone) and isinstance(me.get("attr:_tolerance"), VNone))
+
+
+REG.add(Contract("cobra/summary/summary.py", "Summary.__init__", "C20", [("self", TObj("Summary", {}))], [Case("any", ensures=_si_post)],
+                 key="Summary.__init__", assumed=True,
+                 modifies=lambda E: [("attr", E["self"], "_flux", lambda st: (st, NONE)), ("attr", E["self"], "_tolerance", lambda st: (st, NONE))],
+                 note="Summary.__init__(**kwargs) = object.__init__ and `self._flux = None; self._tolerance = None` (three lines; ASSUMED only "
+                      "because a zero-argument super() inside an inherited __init__ is resolved relative to the class under verification "
+                      "by the engine, and contract call sites do not bind **kwargs); called with no further keyword arguments"))
+
+
+def _met_t():
+    return TObj("Metabolite", {"reactions": TSet("np"), "np": N.TNp()})
+
+
+def init_call_method(eng, st, recv, name, pos, kw):
+    if isinstance(recv, VObj) and recv.cls == "Metabolite" and name == "copy" and not pos and not kw:
+        return [("ok", st, N.VNp(copy_of(st.objs[recv.oid]["attr:np"].t)))]
+    if isinstance(recv, VObj) and recv.cls == "MetaboliteSummary" and name == "_generate":
+        # the contract proved above, applied; the call is recorded
+        outs = []
+        for k, s, v in eng.apply_contract(st, REG.get("MetaboliteSummary._generate"), [recv] + list(pos), kw):
+            if k == "ok":
+                s = s.setghost("gen_calls", _trace(s, "gen_calls") + ((tuple(pos), dict(kw)),))
+            outs.append((k, s, v))
+        return outs
+    return None
+
+
+HOOKS_INIT = chain_hooks({"call_method": init_call_method}, HOOKS)
+
+
+def _mi_post(E):
+    s0, s1 = E.s0, E.s1
+    me = s1.objs[E["self"].oid]
+    met = s0.objs[E["metabolite"].oid]
+    rs = s0.objs[met["attr:reactions"].oid]
+    lst, mcopy = me.get("attr:_reactions"), me.get("attr:_metabolite")
+    gen = _trace(s1, "gen_calls")
+    if not (isinstance(lst, VObj) and lst.kind == "list" and isinstance(mcopy, N.VNp) and len(gen) == 1):
+        return z3.BoolVal(False)
+    order = [v for k, v in s1.ghost.items() if isinstance(k, tuple) and k[0] == "order" and k[1] == met["attr:reactions"].oid]
+    pm = _the_perm(s1)
+    if len(order) != 1 or pm is None:
+        return z3.BoolVal(False)
+    enum, pos_of, card = order[0]
+    perm, inv = pm
+    lrec = s1.objs[lst.oid]
+    x = KEY_X
+    p = z3.Select(inv, z3.Select(pos_of, x))          # where the copy of member x of metabolite.reactions stands in self._reactions
+    j = ROW_J
+    pos, kw = gen[0]
+    return z3.And(
+        mcopy.t == copy_of(met["attr:np"].t),
+        lrec["len"] == card,                                                                     # as many entries as members ...
+        z3.Implies(z3.Select(rs["dom"], x), z3.And(0 <= p, p < card, z3.Select(lrec["elem"], p) == copy_of(x))),   # ... every member's copy is there ...
+        z3.Implies(z3.And(0 <= j, j < card),                                                     # ... and every entry is the copy of a member
+                   z3.And(z3.Select(rs["dom"], z3.Select(enum, z3.Select(perm, j))),
+                          z3.Select(lrec["elem"], j) == copy_of(z3.Select(enum, z3.Select(perm, j))))),
+        z3.BoolVal(len(pos) == 3 and not kw and pos[0] is E["model"] and pos[1] is E["solution"] and pos[2] is E["fva"]))
+
+
+def _mi_cases():
+    out = _cases(_mi_post)
+    return out
+
+
+REG.add(Contract(MT, "MetaboliteSummary.__init__", "C20",
+                 [("self", TObj("MetaboliteSummary", {})), ("metabolite", _met_t()), ("model", _model_t()), ("solution", TNone()),
+                  ("fva", TNone()), ("**kwargs", TConc({"__kwargs__": True}))],
+                 _mi_cases(), key="MetaboliteSummary.__init__", axioms=lambda E: copy_axioms(),
+                 pre=lambda E: E.s0.objs[E["model"].oid]["attr:tolerance"].k == 0,
+                 modifies=lambda E: [("obj", E["self"]), ("ghost", "ms_calls", lambda st: ()), ("ghost", "df_calls", lambda st: ()),
+                                     ("ghost", "gen_calls", lambda st: ())]))
